@@ -445,3 +445,13 @@ func init() {
 		},
 	})
 }
+
+func init() {
+	replayDrivers = append(replayDrivers, replayDriver{
+		match: func(n string) bool { return strings.Contains(n, "generateRoleCert#C20.") },
+		run: func(r *Report, o *Obligation, sr *SolveResult) ReplayResult {
+			out, conf := goReplay(r, "cmd/keymasterd", "keymasterd_audit_replay_test.go", "TestVerifReplayCloudRoleCertPublished", map[string]string{})
+			return ReplayResult{Confirmed: conf, Summary: replaySummary(out), Output: truncate(out, 4000), Driver: "TestVerifReplayCloudRoleCertPublished (path of the model: signing succeeds; a live subscriber is attached)"}
+		},
+	})
+}
